@@ -5,7 +5,9 @@
 //! through the hook and the REAL `DriftTables::at` / `DriftTable::at` run.
 //! One instance = one real table `K`; `t` is symbolic in [-1e-6, 5e-6] s.
 
-use crate::drift_data::{table, NUM_TABLES, Z_BOUNDS};
+use crate::drift_data::{qtable, table, NUM_TABLES, Z_BOUNDS};
+use uom::si::f64::{Angle, Length, Time};
+use uom::si::length::meter;
 use crate::sym;
 use alpha_g_physics::verif_drift::VerifDriftTables;
 
@@ -18,17 +20,25 @@ fn sym_t() -> f64 {
     t
 }
 
-/// One-slice tables holding real table `K` with its real z bound.
-fn one<const K: usize>() -> (VerifDriftTables, &'static [(f64, f64, f64)], f64) {
-    let k = table(K);
+/// One-slice tables holding real table `K` (mode `M` = 0) or a window of its
+/// consecutive knots (`M` = 1 first 12, 2 last 12, 3 the 48 around the middle),
+/// with its real z bound. A window of consecutive knots of a table is itself a
+/// table; inside the window the real lookup brackets `t` with the same two
+/// knots as in the full table. Windows are separate statics so that the lookup
+/// at a symbolic index ranges over a small object.
+fn one<const K: usize, const M: usize>() -> (VerifDriftTables, &'static [(f64, f64, f64)], f64) {
     let z = Z_BOUNDS[K];
-    (VerifDriftTables::new(&[(k, z)]), k, z)
+    (
+        VerifDriftTables::from_static(&[(qtable(K, M), Length::new::<meter>(z))]),
+        table(K, M),
+        z,
+    )
 }
 
 /// (a) success iff t within [first, last] knot (inclusive) else drift-time error;
 /// (b) radius within the slice's tabulated extremes, correction within [0, max].
-pub fn range_and_bounds<const K: usize>() {
-    let (tabs, k, zb) = one::<K>();
+pub fn range_and_bounds<const K: usize, const M: usize>() {
+    let (tabs, k, zb) = one::<K, M>();
     let n = k.len();
     let t = sym_t();
     let z = sym::f64();
@@ -36,8 +46,8 @@ pub fn range_and_bounds<const K: usize>() {
     let r = tabs.at(z, t);
     let inside = t >= k[0].0 && t <= k[n - 1].0;
     witness!(r.is_ok(), "inside");
-    witness!(r.is_err() && t > 0.0, "beyond-last-knot");
-    witness!(r.is_err() && t < 0.0, "before-first-knot");
+    witness!(r.is_err() && t > k[n - 1].0, "beyond-last-knot");
+    witness!(r.is_err() && t < k[0].0, "before-first-knot");
     check!(r.is_ok() == inside, "C18:range:iff");
     match r {
         Ok((rad, cor)) => {
@@ -51,8 +61,8 @@ pub fn range_and_bounds<const K: usize>() {
 }
 
 /// (e) every tabulated time reproduces its tabulated radius/correction (1e-12).
-pub fn knots<const K: usize>() {
-    let (tabs, k, _zb) = one::<K>();
+pub fn knots<const K: usize, const M: usize>() {
+    let (tabs, k, _zb) = one::<K, M>();
     let n = k.len();
     let i = sym::usize();
     sym::assume(i < n);
@@ -70,8 +80,8 @@ pub fn knots<const K: usize>() {
 }
 
 /// (f) z and -z give bit-identical results.
-pub fn symmetry<const K: usize>() {
-    let (tabs, _k, zb) = one::<K>();
+pub fn symmetry<const K: usize, const M: usize>() {
+    let (tabs, _k, zb) = one::<K, M>();
     let t = sym_t();
     let z = sym::f64();
     sym::assume(z >= 0.0 && z <= zb);
@@ -89,8 +99,8 @@ pub fn symmetry<const K: usize>() {
 
 /// (c)+(d) two lookups: radius does not increase with time; lookups 8 ns
 /// apart differ by less than 0.5 mm.
-pub fn monotone_continuous<const K: usize>() {
-    let (tabs, _k, _zb) = one::<K>();
+pub fn monotone_continuous<const K: usize, const M: usize>() {
+    let (tabs, _k, _zb) = one::<K, M>();
     let t1 = sym_t();
     let t2 = sym_t();
     sym::assume(t1 <= t2);
@@ -106,43 +116,60 @@ pub fn monotone_continuous<const K: usize>() {
     std::mem::forget(tabs);
 }
 
-/// Slice selection over all real z bounds (two-knot dummy tables whose radius
-/// encodes the slice index): error iff |z| > last bound, else the first slice
-/// whose bound is >= |z|, including z exactly on a bound.
-pub fn slice_selection() {
-    // dummy tables: constant radius = slice index
-    static DUMMY: [[(f64, f64, f64); 2]; 92] = {
-        let mut a = [[(0.0, 0.0, 0.0); 2]; 92];
+/// Slice selection over the real z bounds `8*J .. 8*J+8` (two-knot dummy
+/// tables whose radius encodes the slice index): error iff |z| > last bound,
+/// else the first slice whose bound is >= |z|, including z exactly on a bound;
+/// identical for z and -z.
+pub fn slice_selection<const J: usize>() {
+    use core::marker::PhantomData;
+    const fn q(t: f64, r: f64) -> (Time, Length, Angle) {
+        (
+            Time { dimension: PhantomData, units: PhantomData, value: t },
+            Length { dimension: PhantomData, units: PhantomData, value: r },
+            Angle { dimension: PhantomData, units: PhantomData, value: 0.0 },
+        )
+    }
+    static DUMMY: [[(Time, Length, Angle); 2]; 8] = {
+        let mut a = [[q(0.0, 0.0); 2]; 8];
         let mut k = 0;
-        while k < 92 {
-            a[k] = [(0.0, k as f64, 0.0), (1.0, k as f64, 0.0)];
+        while k < 8 {
+            a[k] = [q(0.0, k as f64), q(1.0, k as f64)];
             k += 1;
         }
         a
     };
-    let mut spec: [(&[(f64, f64, f64)], f64); 92] = [(&DUMMY[0], 0.0); 92];
+    let lo = 8 * J;
+    let n = if lo + 8 <= NUM_TABLES { 8 } else { NUM_TABLES - lo };
+    let mut spec: [(&'static [(Time, Length, Angle)], Length); 8] =
+        [(&DUMMY[0], Length::new::<meter>(0.0)); 8];
     let mut k = 0;
-    while k < NUM_TABLES {
-        spec[k] = (&DUMMY[k], Z_BOUNDS[k]);
+    while k < n {
+        spec[k] = (&DUMMY[k], Length::new::<meter>(Z_BOUNDS[lo + k]));
         k += 1;
     }
-    let tabs = VerifDriftTables::new(&spec);
+    let tabs = VerifDriftTables::from_static(&spec[..n]);
     let z = sym::f64();
     sym::assume(z >= -1.3 && z <= 1.3);
     let r = tabs.at(z, 0.5);
+    let m = tabs.at(-z, 0.5);
+    let same = match (r, m) {
+        (Ok((r1, c1)), Ok((r2, c2))) => r1.to_bits() == r2.to_bits() && c1.to_bits() == c2.to_bits(),
+        (Err(x), Err(y)) => x == y,
+        _ => false,
+    };
+    check!(same, "C18:z-symmetry-of-slice-selection");
     let az = if z < 0.0 { -z } else { z };
-    let last = Z_BOUNDS[NUM_TABLES - 1];
+    let last = Z_BOUNDS[lo + n - 1];
     witness!(r.is_err(), "outside");
     witness!(r.is_ok(), "inside");
     check!(r.is_ok() == (az <= last), "C18:z-range:iff");
     match r {
         Ok((rad, _)) => {
-            // expected slice: first with bound >= |z|
             let mut want = 0usize;
             let mut found = false;
             let mut k = 0;
-            while k < NUM_TABLES {
-                if !found && Z_BOUNDS[k] >= az {
+            while k < n {
+                if !found && Z_BOUNDS[lo + k] >= az {
                     want = k;
                     found = true;
                 }
